@@ -156,7 +156,7 @@ def judge_create(ctx, tname, P, pt, culture, cls):
 
 def pattern_mutants(rng, pt, n):
     out = set()
-    PAL = list("yuMdcgHhmsfFtTDSlZ%'\"\\<>:/-.;+ ") + ["ld<", "lt<", "l<", ">", "%%", "''", "\\"]
+    PAL = list("yuMdcgHhmsfFtTDSlZ%'\"\\<>:/-.;+ {}") + ["ld<", "lt<", "l<", ">", "%%", "''", "\\", "{0}", "{", "}"]
     for _ in range(n):
         s = list(pt)
         if not s: break
@@ -169,7 +169,8 @@ def pattern_mutants(rng, pt, n):
     for f in ("dd", "MM", "uuuu", "c", "d", "M", "yyyy", "HH", "mm", "ss", "tt", "g", "ddd", "MMMM", "HH:mm"):
         out |= {f"ld<uuuu'-'MM'-'dd> {f}", f"{f} ld<uuuu'-'MM'-'dd>", f"lt<HH':'mm> {f}", f"{f} lt<HH':'mm>", f"ld<uuuu'-'MM'-'dd> lt<HH':'mm> {f}", f"ld<uuuu'-'MM'-'dd> {f} lt<HH':'mm>"}
     out |= {"", "'", '"', "\\", "%", "%%", pt + "'", pt + '"', pt + "\\", pt + pt, "'" + pt, "ld<", "lt<", "l<", "ld<>", "lt<>", "l<>", "ld<" + pt, "ld<" + pt + ">", "lt<" + pt + ">",
-            "l<" + pt + ">", "ld<ld<" + pt + ">>", "<" + pt + ">", pt + ">", pt + "<", "\0", pt + "\0", "\ud800", pt * 20}
+            "l<" + pt + ">", "ld<ld<" + pt + ">>", "<" + pt + ">", pt + ">", pt + "<", "\0", pt + "\0", "\ud800", pt * 20,
+            "{", "}", "{}", "{0}", "{" + pt, pt + "}", "{" + pt + "}", "%{", "{{", "}}"} | set("abcdefghijklmnopqrstuvwxyzABCDEFGHIJKLMNOPQRSTUVWXYZ0123456789!#$&()*,=?@[]^_`|~")
     return out
 
 
@@ -337,6 +338,39 @@ def run_edges(ctx):
                 for a, b in (("00:00:00", "24:00:00"), ("00:00", "24:00"), ("00:00:00", "24:00:01"), ("00:00", "23:60"), ("T00:00:00", "T24:00:00")):
                     if a in base:
                         judge_parse(ctx, "LocalDateTime", p, pt, "", base.replace(a, b), "hour-24-edge")
+    # patterns that leave fields to the template, with templates whose fields do not fit every value the text can name
+    from pyoda_time import AnnualDate, LocalTime
+    AD = G.pattern_class("AnnualDate"); LT = G.pattern_class("LocalTime")
+    for pt in ("MM", "MMMM", "MMM", "%M", "dd", "%d", "MM-dd"):
+        p0 = judge_create(ctx, "AnnualDate", AD, pt, inv, "edges")
+        if p0 is None: continue
+        for tv in (AnnualDate(1, 31), AnnualDate(3, 30), AnnualDate(2, 29), AnnualDate(12, 31), AnnualDate(2, 1)):
+            try:
+                p = p0.with_template_value(tv)
+            except Exception as e:  # noqa: BLE001
+                ctx.exc(e); continue
+            for t in ["02", "04", "2", "4", "13", "00", "31", "30", "29", "February", "Feb", "April", "Apr", "02-30", "04-31", "02-29", "12-31"]:
+                judge_parse(ctx, "AnnualDate", p, pt, "", t, "template-field-edge")
+    for pt in ("MM", "MMMM", "dd", "uuuu", "uuuu-MM", "MM-dd", "yyyy"):
+        p0 = judge_create(ctx, "LocalDate", LD, pt, inv, "edges")
+        if p0 is None: continue
+        for tv in (LocalDate(2000, 1, 31), LocalDate(2024, 2, 29), LocalDate(2023, 3, 30), LocalDate(9999, 12, 31), LocalDate(-9998, 1, 1)):
+            try:
+                p = p0.with_template_value(tv)
+            except Exception as e:  # noqa: BLE001
+                ctx.exc(e); continue
+            for t in ["02", "04", "13", "00", "31", "30", "February", "April", "2023", "2024", "9999", "-9998", "0000", "2023-02", "2024-02", "02-30", "02-29", "04-31", "10000"]:
+                judge_parse(ctx, "LocalDate", p, pt, "", t, "template-field-edge")
+    for pt in ("HH", "mm", "ss", "hh", "tt", "HH:mm", "%h", "h tt"):
+        p0 = judge_create(ctx, "LocalTime", LT, pt, inv, "edges")
+        if p0 is None: continue
+        for tv in (LocalTime(23, 59, 59), LocalTime(0, 0, 0), LocalTime(12, 30, 0), LocalTime(13, 0, 0)):
+            try:
+                p = p0.with_template_value(tv)
+            except Exception as e:  # noqa: BLE001
+                ctx.exc(e); continue
+            for t in ["00", "12", "13", "23", "24", "59", "60", "AM", "PM", "12 AM", "0 PM", "13 PM", "23:60", "24:00"]:
+                judge_parse(ctx, "LocalTime", p, pt, "", t, "template-field-edge")
     for pt in ("g", "uuuu-MM-dd'T'HH:mm:ss'Z'"):
         p = judge_create(ctx, "Instant", INST, pt, inv, "edges")
         if p is None: continue
